@@ -116,6 +116,15 @@ def run(chk):
                 continue            # const or static callee
             if "const " in (viaptr[0].get("t") or "").split("unique_ptr<")[-1][:8]:
                 continue
+            cal = callee(c) or ""
+            if cal.startswith("std::"):
+                # a non-const method of a standard container that lives behind the pointer (sort, push_back, clear, ...): it has no body to look at and always changes the container
+                from tsg.flow import is_accessor as _acc
+                if not _acc(cal):
+                    npt += 1
+                    chk.ob("C12-D3.pointee", g.key + g.sig, "non-const %s called through %s" % (short(cal), short(viaptr[0]["field"])), False, g.loc(c),
+                           "`%s` modifies a container of the pointee inside a const method" % txt(c)[:60], "const callee, or a copy of the container")
+                continue
             for t in P.targets(g, c):
                 if t.file.startswith("@verif") or (t.name or "").startswith("std::"):
                     continue
@@ -125,6 +134,28 @@ def run(chk):
                        "the callee writes `%s`" % w if w else "the callee writes none of its members")
     chk.floor("C12-D3.pointee", nseen_ptr, 10, "calls through pointer-like members in the const closure (matcher control)")
     chk.ob("C12-D3.pointee", "(const closure)", "calls through pointer-like members: every callee is const or writes nothing", True, "", "%d calls seen, %d with a non-const callee" % (nseen_ptr, npt))
+
+    # ------------------------------------------------------------------ D4: C library functions that keep hidden global state
+    chk.rule("C12-D4.libc", "no function in the const call-graph closure calls a C library function that is documented as not thread-safe because it writes hidden global state "
+                            "(lgamma/gamma write signgam; rand, strtok, localtime, gmtime, asctime, ctime, strerror, setlocale, getenv-modifying calls, tmpnam ...); "
+                            "such a call is a data race between two const operations even on different grids")
+    MT_UNSAFE = {"lgamma", "lgammaf", "lgammal", "gamma", "gammaf", "rand", "srand", "random", "srandom", "drand48", "lrand48", "mrand48", "srand48", "strtok", "localtime", "gmtime",
+                 "asctime", "ctime", "strerror", "setlocale", "tmpnam", "putenv", "setenv", "unsetenv", "getlogin", "ttyname", "readdir", "ecvt", "fcvt", "gcvt", "l64a", "basename", "dirname"}
+    nlib = 0
+    ncalls = 0
+    for k in sorted(visited):
+        g = byks.get(k) if isinstance(k, tuple) else None
+        if g is None or g.file.startswith("@verif"):
+            continue
+        for c in g.calls():
+            cal = callee(c) or ""
+            ncalls += 1
+            base = cal[5:] if cal.startswith("std::") else cal.lstrip(":")
+            if base in MT_UNSAFE and _reach(g, c) and not gpu_only_call(g, c):
+                nlib += 1
+                chk.ob("C12-D4.libc", g.key + g.sig, "call of %s" % cal, False, g.loc(c), "%s() writes hidden global state of the C library" % base, "a re-entrant alternative")
+    chk.floor("C12-D4.libc", ncalls, 2000, "call sites examined in the const closure")
+    chk.ob("C12-D4.libc", "(const closure)", "no call of a C library function with hidden global state", nlib == 0, "", "%d call sites in %d functions examined" % (ncalls, len(visited)))
 
     # D2 + control
     nconst = 0
